@@ -483,6 +483,11 @@ func TxDifference(a, b Transactions) (keep Transactions) {
 // SignTx signs the transaction using the given signer and private key
 func SignTx(signer Signer, tx *Transaction, prv *ecdsa.PrivateKey) (*Transaction, error) {
 	h := signer.Hash(tx)
+	if id := signer.ChainID(); id != nil && id.Sign() == 0 {
+		// a zero chain id yields an unprotected signature (v = 27/28), which
+		// every signer recovers over the Homestead hash
+		h = sigHash(tx)
+	}
 	sig, err := crypto.Sign(h[:], prv)
 	if err != nil {
 		return nil, err
